@@ -191,7 +191,7 @@ func c07R2(a *A, r *Roles) {
 				return
 			}
 			if m == "Close" {
-				a.check(f.Parent() == r.CloseConn || f == r.CloseConn, rule, key, w.posOf(in), "Close in close()", "the driver connection is closed outside close()")
+				a.check(f == r.CloseConn || onceBodies(w, r.CloseConn)[f], rule, key, w.posOf(in), "Close in close()", "the driver connection is closed outside close()")
 				return
 			}
 			okLoop := true
